@@ -279,3 +279,24 @@ def return_paths(func, max_paths=400, inline=True, _depth=0):
     if overflow[0]:
         return None
     return done
+
+
+class _Block:
+    """a statement list presented to return_paths() as a function"""
+
+    def __init__(self, body, like):
+        self.node = ast.FunctionDef(
+            name='<block>', args=ast.arguments(
+                posonlyargs=[], args=[], kwonlyargs=[], kw_defaults=[],
+                defaults=[]), body=list(body), decorator_list=[])
+        self.cls = getattr(like, 'cls', None)
+        self.module = getattr(like, 'module', None)
+        self.name = '<block>'
+        self.params = []
+
+
+def block_paths(stmts, like=None, max_paths=400):
+    """paths through a statement list that do not raise (they fall through
+    or return); see return_paths"""
+    return return_paths(_Block(stmts, like), max_paths=max_paths,
+                        inline=False)
